@@ -2,6 +2,7 @@ import MitmVerif.Model.C38
 import MitmVerif.Gen.C38
 import MitmVerif.Model.C38_Conv
 import MitmVerif.Model.C38_State
+import MitmVerif.Model.C38_Tuple
 import Driver.Proto
 open MitmVerif Driver MitmVerif.C38 MitmVerif.Gen.C38
 
@@ -37,6 +38,17 @@ def c38Step (line : String) : String :=
       | .ok _, none => "unmodelled"
       | _, _ => "bad-state"
     | _, _ => "bad-op"
+  | ["convt", a, b, h] =>
+    match a.toNat?, b.toNat?, hexOr h with
+    | some a, some b, some bs =>
+      match MitmVerif.C36.popTop 64 bs, MitmVerif.C38Conv.convTuple a b with
+      | .ok (.dict kvs, []), some f =>
+        match f kvs with
+        | some d' => "ok " ++ showBytes (MitmVerif.C36.dumps (.dict d'))
+        | none => "none"
+      | .ok _, none => "unmodelled"
+      | _, _ => "bad-state"
+    | _, _, _ => "bad-op"
   | ["golden"] => "golden"
   | _ => "bad-op"
 
